@@ -227,7 +227,7 @@ def run(prop: str, tier: str, seed: int) -> int:
             y.n_bins = st["nb"]
             cases.append(rows_case(f"pack-{k}", "packing", st["rows"], sp.to_str(y), sp.from_str))
             rep.family("packing-texts", 1, 1)
-            if n_logs < {"quick": 12, "thorough": 80}[tier]:
+            if n_logs < {"quick": 12, "thorough": 80}[tier] and inst.n_items >= 2:   # (the search space needs 2+ items)
                 # the same through a real log file; every third instance carries the NAME of a shipped instance
                 li = inst if n_logs % 3 else bp.make_instance(W, H, items, name=rng.choice(["a01", "beng03", "cl01_020_01"]))
                 cases.append(packing_log_case(f"packlog-{k}", li, rng, pl_dir))
